@@ -2,6 +2,7 @@ package headers
 
 import (
 	"fmt"
+	"math"
 	"strconv"
 	"strings"
 	"time"
@@ -161,7 +162,7 @@ func unmarshalRangeNPTTime(d *time.Duration, s string) error {
 	}
 	seconds := tmp
 
-	*d = time.Duration(seconds*float64(time.Second)) +
+	*d = time.Duration(math.Round(seconds*float64(time.Second))) +
 		time.Duration(mins*60+hours*3600)*time.Second
 
 	return nil
